@@ -16,6 +16,8 @@ import (
 	"github.com/fasthttp/websocket"
 	"github.com/hprose/hprose-golang/v3/rpc"
 	"github.com/hprose/hprose-golang/v3/rpc/core"
+	"github.com/hprose/hprose-golang/v3/rpc/plugins/log"
+	"github.com/hprose/hprose-golang/v3/rpc/plugins/timeout"
 	"verif/mc/gen"
 	"verif/mc/rpclab"
 )
@@ -78,7 +80,7 @@ type customPanic struct {
 var panicKinds = []string{"string", "error", "custom-struct", "nil-map-write", "index-out-of-range"}
 
 // further panic values of the thorough tier
-var morePanicKinds = []string{"int", "nil-pointer-dereference", "custom-error-type", "wrapped-error"}
+var morePanicKinds = []string{"int", "nil-pointer-dereference", "custom-error-type", "wrapped-error", "value-that-contains-itself"}
 
 type customErr struct{ Code int }
 
@@ -107,8 +109,13 @@ func panicWith(kind int) {
 		_ = p.Code
 	case 7:
 		panic(&customErr{7})
-	default:
+	case 8:
 		panic(fmt.Errorf("boom: wrapped: %w", errors.New("inner")))
+	default:
+		// printing it (the error text of the call is made from the panic value) never ends
+		m := map[string]interface{}{"why": "boom"}
+		m["me"] = m
+		panic(m)
 	}
 }
 
@@ -152,6 +159,8 @@ func newFixture(sc scenario) *fixture {
 	svc.AddFunction(func(kind int) int { panicWith(kind); return kind }, "boom")
 	svc.AddFunction(func(kind int) int { return kind }, "pluginboom")
 	svc.AddFunction(func(n int) []byte { return bytes.Repeat([]byte{'x'}, n) }, "big")
+	// an error whose Error method dereferences its nil receiver: producing the error text of the call panics
+	svc.AddFunction(func() (int, error) { var e *customErr; return 0, e }, "nilerr")
 	svc.AddMissingMethod(func(name string, args []interface{}) ([]interface{}, error) {
 		if name == "nosuchboom" && len(args) > 0 {
 			panicWith(toInt(args[0]))
@@ -172,6 +181,13 @@ func newFixture(sc scenario) *fixture {
 	})
 	if sc.Class == "request-above-MaxRequestLength" {
 		svc.MaxRequestLength = 1024
+	}
+	switch sc.Class {
+	case "function-panic-under-the-execute-timeout-plugin":
+		// the library's plugin runs the rest of the invoke chain in a goroutine of its own
+		svc.Use(timeout.New(20 * time.Second).Handler)
+	case "self-containing-argument-with-the-log-plugin":
+		svc.Use(log.New(func(v ...interface{}) {}))
 	}
 	f.svc = svc
 	return f
